@@ -14,9 +14,9 @@ META = {
                   "tree": "all binary tree shapes with 1..4 leaves, leaf scripts = one symbolic push of 1..2 bytes + an opcode, leaf version 0xC0 (and 0xC2, 0xC4, 0xFE for n <= 2) shared by the leaves; for n in {2,3} also the same script under two versions, "
                           "pairwise different leaf scripts; every leaf of every tree",
                   "tamper": "byte positions {0,1,16,32,33,64,65,96} (version/parity byte, first/middle/last byte of the internal key and of each path hash) of a 97-byte control block of a 3-leaf tree, replacement value symbolic"},
-        "thorough": {"tree": "all shapes with 1..6 leaves", "tamper": "every byte position 0..96"}},
+        "thorough": {"tree": "all shapes with 1..5 leaves", "tamper": "every byte position 0..96"}},
     "outside": ["the binding of (internal key, root) -> output key and collision resistance of tagged hashes (assumed, listed)",
-                "tweak values t >= N (probability 2^-128; BIP341 fails there)", "trees with more than 6 leaves"],
+                "tweak values t >= N (probability 2^-128; BIP341 fails there)", "trees with more than 5 leaves (4 in the quick tier); a single 6-leaf shape did not finish within 25 minutes"],
     "stubs": ["abstract prime-order group (symx/field.py)", "SHA-256 uninterpreted on symbolic input (tag prefixes hashed for real)"],
     "assumptions": ["prime-order group (C03)", "the tweaked key is not the point at infinity (probability 2^-256)", "tagged hashes are injective: different leaves / branches have different hashes"],
 }
@@ -467,12 +467,12 @@ def replay_tamper(w):
 def obligations(tier):
     q = tier == "quick"
     obs = [Ob("O1-tweak", ob_tweak, replay="tweak")]
-    for n in (range(1, 5) if q else range(1, 7)):
+    # thorough: every shape up to five leaves (about 90 s per 5-leaf shape); one 6-leaf shape did not finish in 25 minutes, so six
+    # leaves are outside the claim (the thorough tier is sized by wall time)
+    for n in (range(1, 5) if q else range(1, 6)):
         parts = len(shapes(n))
-        # six leaves: 42 shapes of > 1 h each; the two combs and the most balanced shape stand for them (thorough tier sized by wall time)
-        pick = range(parts) if n < 6 else (0, parts // 2, parts - 1)
-        for part in pick:
-            obs.append(Ob("O2O3-tree", ob_tree, {"n": n, "part": part, "parts": parts}, replay="tree", budget_s=3000 if n < 6 else 7200))
+        for part in range(parts):
+            obs.append(Ob("O2O3-tree", ob_tree, {"n": n, "part": part, "parts": parts}, replay="tree", budget_s=3000))
     obs.append(Ob("O2-long-leaf", ob_long_leaf, {"lengths": (252, 253, 254, 520) if q else (252, 253, 254, 255, 256, 300, 520, 4660, 65535, 65536)},
                   replay="long_leaf"))
     pos = [0, 1, 16, 32, 33, 64, 65, 96] if q else list(range(97))
